@@ -30,7 +30,12 @@ FLOORS = {"quick": {"pairs": 225, "sites_checked": 4000}, "thorough": {"pairs": 
 ANCHORS = ['Message._type_hints', 'Message._cls_for']
 PLUGIN_ANCHORS = ['get_type_reference', 'parse_source_type_name', 'reference_cousin', 'reference_ancestor', 'reference_descendent', 'reference_sibling', 'reference_absolute']
 CONTRACTS = []
-KINDS = [("msg", "Target"), ("nested", "Target.Inner"), ("enum", "Kind"), ("nested_enum", "Target.Mode")]
+KINDS = [("msg", "Target"), ("nested", "Target.Inner"), ("enum", "Kind"), ("nested_enum", "Target.Mode"),
+         ("deep", "Target.Inner.Deep"), ("deep_enum", "Target.Inner.Level")]
+# package paths whose names are string-prefixes of each other (a / ab, v1 / v1beta): a name-based instead of a
+# component-based comparison goes wrong exactly here
+SPECIAL = [(), ("a",), ("ab",), ("a", "c"), ("ab", "c"), ("a", "b"), ("a", "bc"), ("foo", "v1"), ("foo", "v1beta"),
+           ("foo", "v1beta", "x"), ("foo",)]
 WKT = [("ts", "google.protobuf.Timestamp"), ("du", "google.protobuf.Duration"), ("empty", "google.protobuf.Empty"),
        ("any", "google.protobuf.Any"), ("w32", "google.protobuf.Int32Value"), ("mask", "google.protobuf.FieldMask")]
 
@@ -71,6 +76,10 @@ def plan(tier, seed):
     shards = [{"kind": "pairs", "pairs": pairs[i::n]} for i in range(n)]
     shards.append({"kind": "all", "alphabet": list(alpha if tier == "thorough" else ("a", "b")), "max_depth": 3 if tier == "quick" else 2, "seed": seed})
     shards.append({"kind": "all", "alphabet": ["a", "b"], "max_depth": 2, "seed": seed + 1})
+    sp = [(list(p), list(q)) for p in SPECIAL for q in SPECIAL]
+    for i in range(4):
+        shards.append({"kind": "pairs", "pairs": sp[i::4]})
+    shards.append({"kind": "all", "paths": [list(p) for p in SPECIAL], "seed": seed + 2})
     return shards
 
 
@@ -86,7 +95,7 @@ def defs_proto(pkg, tag=""):
         f"enum Kind{tag} {{ KIND{tag}_ZERO = 0; KIND{tag}_ONE = 1; }}",
         f"message Target{tag} {{",
         "  int32 x = 1;",
-        "  message Inner { int32 y = 1; }",
+        "  message Inner { int32 y = 1; message Deep { int32 z = 1; } enum Level { LEVEL_ZERO = 0; LEVEL_UP = 3; } }",
         "  enum Mode { MODE_ZERO = 0; MODE_B = 2; }",
         "  Inner inner = 2;",
         "  Mode mode = 3;",
@@ -174,6 +183,7 @@ def check_build(b: Build, importer, targets, sites, res: Result, w, rel_of):
             tcls[label] = {
                 "msg": b.bp_class(fq(q, "Target" + tag)), "nested": b.bp_class(fq(q, "Target" + tag + ".Inner")),
                 "enum": b.bp_enum(fq(q, "Kind" + tag)), "nested_enum": b.bp_enum(fq(q, "Target" + tag + ".Mode")),
+                "deep": b.bp_class(fq(q, "Target" + tag + ".Inner.Deep")), "deep_enum": b.bp_enum(fq(q, "Target" + tag + ".Inner.Level")),
             }
         except BuildError as e:
             res.violation("resolve", ["target-class-missing", rel_of[label], "-"], f"{e}", w)
@@ -201,10 +211,10 @@ def check_build(b: Build, importer, targets, sites, res: Result, w, rel_of):
             continue
         # round trip through the referencing field
         try:
-            if kind in ("msg", "nested"):
-                val = want(**{("x" if kind == "msg" else "y"): 5})
+            if kind in ("msg", "nested", "deep"):
+                val = want(**{{"msg": "x", "nested": "y", "deep": "z"}[kind]: 5})
             else:
-                val = want.try_value(1 if kind == "enum" else 2)
+                val = want.try_value({"enum": 1, "nested_enum": 2, "deep_enum": 3}[kind])
             arg = [val] if site == "repeated" else ({"k": val} if site == "map" else val)
             m2 = H().parse(bytes(H(**{nm: arg})))
             back = getattr(m2, nm)
@@ -241,12 +251,45 @@ def check_build(b: Build, importer, targets, sites, res: Result, w, rel_of):
         res.violation("resolve", ["rpc", "wkt", "wrong-class"], f"Wkt rpc types: {getattr(h, 'request_type', None)!r} {getattr(h, 'reply_type', None)!r}", w)
 
 
+def rpc_only_proto(r, q):
+    """a package whose ONLY references to the importee are RPC inputs (first service) / RPC outputs (second)"""
+    lines = ['syntax = "proto3";', f"package {'.'.join(r)};", 'import "q_defs.proto";', "message Here { int32 h = 1; }",
+             "service OnlyIn {", f"  rpc U({fq(q, 'Target')}) returns (Here);", f"  rpc S(stream {fq(q, 'Target.Inner')}) returns (Here);", "}"]
+    return "\n".join(lines) + "\n"
+
+
+def rpc_out_proto(r, q):
+    lines = ['syntax = "proto3";', f"package {'.'.join(r)};", 'import "q_defs.proto";', "message Here { int32 h = 1; }",
+             "service OnlyOut {", f"  rpc U(Here) returns ({fq(q, 'Target')});", f"  rpc S(Here) returns (stream {fq(q, 'Target.Inner.Deep')});", "}"]
+    return "\n".join(lines) + "\n"
+
+
 def build_pair(p, q):
     p, q = tuple(p), tuple(q)
     protos = {"q_defs.proto": defs_proto(q)}
     text, sites = refs_proto(p, [("t", q, "")], ["q_defs.proto"])
     protos["p_refs.proto"] = text
+    protos["r_in.proto"] = rpc_only_proto(p + ("rpcin",), q)
+    protos["r_out.proto"] = rpc_out_proto(p + ("rpcout",), q)
     return protos, sites
+
+
+def check_rpc_only(b, p, q, res: Result, w, rel):
+    for pkg, svc, want in ((tuple(p) + ("rpcin",), "OnlyIn", {"U": ("req", "Target"), "S": ("req", "Target.Inner")}),
+                           (tuple(p) + ("rpcout",), "OnlyOut", {"U": ("rep", "Target"), "S": ("rep", "Target.Inner.Deep")})):
+        res.counters["sites_checked"] += 2
+        try:
+            mod = b.module(".".join(pkg))
+            mapping = getattr(mod, svc + "Base")().__mapping__()
+        except Exception as e:
+            res.violation("resolve", ["rpc-only-package", svc, rel, "raised:" + type(e).__name__],
+                          f"package {'.'.join(pkg)} whose only reference to {'.'.join(q) or '<root>'} is an RPC type: {e!r}", w)
+            continue
+        for meth, (side, tname) in want.items():
+            h = mapping.get(f"/{'.'.join(pkg)}.{svc}/{meth}")
+            got = None if h is None else (h.request_type if side == "req" else h.reply_type)
+            if got is not b.bp_class(fq(q, tname)):
+                res.violation("resolve", ["rpc-only-package", svc, rel, "wrong-class"], f"{'.'.join(pkg)}.{svc}/{meth}: {got!r}", w)
 
 
 def run_pair(p, q, res: Result):
@@ -275,6 +318,7 @@ def run_pair(p, q, res: Result):
             res.violation("import", ["generated-package-does-not-import", rel, "-"], f"{'.'.join(p) or '<root>'} -> {'.'.join(q) or '<root>'}: {e.detail[-900:]}", w)
             return
         check_build(b, tuple(p), [("t", tuple(q), "")], sites, res, w, {"t": rel})
+        check_rpc_only(b, p, q, res, w, rel)
         for ev in b.plugin_events():
             if ev.get("ev") == "typeref" and "Target" in str(ev.get("source_type")) and len(res.extra.setdefault("typeref_samples", [])) < 12:
                 res.extra["typeref_samples"].append({"package": ev["package"], "source_type": ev["source_type"], "result": ev["result"]})
@@ -288,7 +332,7 @@ def run_pair(p, q, res: Result):
 
 
 def run_all(shard, res: Result):
-    ps = paths(tuple(shard["alphabet"]), shard["max_depth"])
+    ps = [tuple(p) for p in shard["paths"]] if shard.get("paths") else paths(tuple(shard["alphabet"]), shard["max_depth"])
     rng = random.Random(shard["seed"])
     protos = {}
     labels = {p: "p" + "_".join(p) if p else "root" for p in ps}
@@ -301,7 +345,7 @@ def run_all(shard, res: Result):
         text, sites = refs_proto(p, targets, [f"{labels[q]}_defs.proto" for q in ps], full_sites=False)
         protos[f"{labels[p]}_refs.proto"] = text
         all_sites[p] = (targets, sites)
-    w = {"kind": "all", "alphabet": shard["alphabet"], "max_depth": shard["max_depth"]}
+    w = {"kind": "all", "alphabet": shard.get("alphabet"), "max_depth": shard.get("max_depth"), "paths": shard.get("paths")}
     b = Build(protos)
     try:
         try:
@@ -320,7 +364,7 @@ def run_all(shard, res: Result):
             return
         res.counters["all_at_once_packages"] += len(ps)
         res.evaluations += 1
-        res.distinct.add("all:" + ",".join(shard["alphabet"]) + str(shard["max_depth"]))
+        res.distinct.add("all:" + str(shard.get("alphabet")) + str(shard.get("max_depth")) + str(len(ps)))
         for p in ps:
             targets, sites = all_sites[p]
             check_build(b, p, targets, sites, res, dict(w, importer=list(p)), {labels[q]: relation(p, q) for q in ps})
@@ -348,5 +392,5 @@ def replay(w):
     if w.get("kind") == "pair":
         run_pair(w["p"], w["q"], res)
     else:
-        run_all({"alphabet": w["alphabet"], "max_depth": w["max_depth"], "seed": 0}, res)
+        run_all({"alphabet": w.get("alphabet"), "max_depth": w.get("max_depth"), "paths": w.get("paths"), "seed": 0}, res)
     return res.violations
